@@ -139,7 +139,7 @@ func (Prop) Run(t *core.Tape, o core.RunOpts) *core.Result {
 		entropy = vrand.EUniform
 		res.Probes.Inc("marathon_run")
 	}
-	budget := int64(n*calls)*400 + int64(n*n*calls)*64 + 20000 // only there to end livelocks; the quadratic term is for designs that wake every waiter on every release
+	budget := int64(n*calls)*1500 + int64(n*n*calls)*64 + 20000 // only there to end livelocks; the quadratic term is for designs that wake every waiter on every release
 	salt := t.Word()
 	// what the code under test is told about the machine
 	procs := [...]int{4, 1, 2, 8, 16, 64}[t.Choose(6)]
@@ -179,8 +179,10 @@ func (Prop) Run(t *core.Tape, o core.RunOpts) *core.Result {
 	s.Logf("config tasks=%d calls=%d strategy=%s entropy=%s clock=%s staggered=%v", n, calls, strategy, vrand.EntropyNames[entropy], clock, staggered)
 
 	seen := make(map[uu.ID]int, n*calls)
-	var or, and [2]uint64
+	var or, and, orRest, andRest [2]uint64
 	and = [2]uint64{^uint64(0), ^uint64(0)}
+	andRest = and
+	firsts, restCalls := 0, 0
 	total := 0
 	returned := 0
 	callbackPanicked := false
@@ -240,9 +242,9 @@ func (Prop) Run(t *core.Tape, o core.RunOpts) *core.Result {
 					// ... and again at the sizes where they start to parallelise or to chunk
 					big := [...]int{255, 256, 257, 1000, 1023, 1024, 1025, 4095, 4096, 4097, 5000, 8191, 12345}
 					want = big[t.Choose(len(big))]
-					s.MaxSteps += int64(want) * 16
 					res.Probes.Inc("extra_id_source_big_batch")
 				}
+				s.MaxSteps += int64(want) * 200 // a pipeline of goroutines and channels spends tens of steps per ID
 				ids = ExtraSources[k](want)
 				res.Probes.Inc("extra_id_source_called")
 			} else {
@@ -252,7 +254,7 @@ func (Prop) Run(t *core.Tape, o core.RunOpts) *core.Result {
 				return
 			}
 			returned++
-			for _, id := range ids {
+			for idx, id := range ids {
 				total++
 				// I3 layout: raw words and accessors
 				if (id.Higher>>12)&0xf != 4 || id.Lower>>62 != 2 {
@@ -271,10 +273,24 @@ func (Prop) Run(t *core.Tape, o core.RunOpts) *core.Result {
 					}
 					seen[id] = task
 				}
-				or[0] |= id.Higher
-				or[1] |= id.Lower
-				and[0] &= id.Higher
-				and[1] &= id.Lower
+				// bit coverage is judged across calls: the first ID of every call in one pair of
+				// accumulators, the later IDs of batch calls in another (what the IDs of one batch
+				// have in common — an ascending prefix, say — is the batch API's business)
+				if idx == 0 {
+					or[0] |= id.Higher
+					or[1] |= id.Lower
+					and[0] &= id.Higher
+					and[1] &= id.Lower
+					firsts++
+				} else {
+					orRest[0] |= id.Higher
+					orRest[1] |= id.Lower
+					andRest[0] &= id.Higher
+					andRest[1] &= id.Lower
+					if idx == 1 {
+						restCalls++
+					}
+				}
 			}
 			s.Yield(sched.KPostCall, 0)
 		}
@@ -285,13 +301,19 @@ func (Prop) Run(t *core.Tape, o core.RunOpts) *core.Result {
 		s.Fail("E1-progress", "progress", fmt.Sprintf("%d of %d calls returned", returned, n*calls))
 	}
 	// E2 bit coverage
-	if s.Viol == nil && s.Infra == "" && entropy == vrand.EUniform && total >= 128 {
+	if s.Viol == nil && s.Infra == "" && entropy == vrand.EUniform && firsts >= 128 {
 		res.Probes.Inc("ids_ge_128_uniform")
 		// a bit position never seen as 1 is 0 in `or`; never seen as 0 is 1 in `and`
 		stuck := [2]uint64{^or[0] | and[0], ^or[1] | and[1]}
 		wantStuck := [2]uint64{0xf000, 0xc000000000000000}
 		if stuck != wantStuck {
-			s.Fail("E2-bit-coverage", "bit-coverage", fmt.Sprintf("over %d IDs the constant bit positions are %016x/%016x, expected exactly the six version/variant bits %016x/%016x", total, stuck[0], stuck[1], wantStuck[0], wantStuck[1]))
+			s.Fail("E2-bit-coverage", "bit-coverage", fmt.Sprintf("over the first IDs of %d calls the constant bit positions are %016x/%016x, expected exactly the six version/variant bits %016x/%016x", firsts, stuck[0], stuck[1], wantStuck[0], wantStuck[1]))
+		}
+		if s.Viol == nil && restCalls >= 128 {
+			stuck = [2]uint64{^orRest[0] | andRest[0], ^orRest[1] | andRest[1]}
+			if stuck != wantStuck {
+				s.Fail("E2-bit-coverage", "bit-coverage-batches", fmt.Sprintf("over the later IDs of %d batch calls the constant bit positions are %016x/%016x, expected exactly the six version/variant bits %016x/%016x", restCalls, stuck[0], stuck[1], wantStuck[0], wantStuck[1]))
+			}
 		}
 	}
 	if s.Viol != nil && callbackPanicked && (s.Viol.Invariant == "E1-stuck" || s.Viol.Invariant == "E1-progress") {
